@@ -460,9 +460,21 @@ def mk_repair(space, op, own):
 
 
 def mk_accept(acc):
-    """'improving' | 'accept_all' | 'simulated_annealing' | custom callable: accept when new < current + thr."""
+    """'improving' | 'accept_all' | 'simulated_annealing' | custom callable.
+
+    {"thr": t}: accept when new < current + t (every improvement is accepted, like the three named rules).
+    {"coin": p}: accept with probability p/8 drawn from the solver's rng, whatever the candidate is worth - this
+    rule may turn an improving candidate down.  alns records a new best before it asks the rule; lns only looks
+    at accepted candidates, so the coin rule is generated for alns only (see LNS_COIN_ACCEPT)."""
     if isinstance(acc, str):
         return acc
+    if "coin" in acc:
+        p = acc["coin"]
+
+        def coin(cur, new, it, rng):
+            return rng.randrange(8) < p
+
+        return _mine(coin)
     thr = acc["thr"]
 
     def accept(cur, new, it, rng):
@@ -510,7 +522,9 @@ def dy(lo, hi, den=8):
 
 
 def _chance(draw, pct):
-    return (draw(st.integers(0, 99)) * 37 + 11) % 100 < pct
+    """True in ~pct% of the cases (measured; an integer-range draw compared with a threshold is visibly skewed by
+    Hypothesis' preference for small and boundary values).  Shrinks to False."""
+    return draw(st.sampled_from([False] * (100 - pct) + [True] * pct))
 
 
 NZ = st.sampled_from([-3, -2, -1, 1, 2, 3, -1, 1, 2, 0])  # coefficients: zero (constant objective) in 10%
@@ -561,7 +575,10 @@ def progress_st(draw, max_iter, first=1):
     if _chance(draw, 10):
         stop_at = 10**6
     else:
-        stop_at = draw(st.integers(first, max(first, max_iter)))
+        hi = max(first, max_iter)
+        if _chance(draw, 50):  # runs often end early (no improvement, temperature, convergence): aim low half the time
+            hi = min(hi, first + 5)
+        stop_at = first + (draw(st.integers(0, 9999)) * 37) % (hi - first + 1)
     return {"interval": interval, "stop_at": stop_at, "idle": draw(st.integers(0, 1))}
 
 
@@ -646,7 +663,7 @@ def anneal_cases(draw, tier="quick"):
         "initial": draw(state_st(space)),
         "nb": {"deltas": draw(DELTAS), "wrap": draw(st.booleans())},
         "cb_seed": draw(SEED),
-        "minimize": _chance(draw, 50),
+        "minimize": not _chance(draw, 50),
         "temperature": draw(st.sampled_from([0.25, 1.0, 10.0, 1000.0])),
         "cooling": cooling,
         "min_temp": draw(st.sampled_from([1e-8, 1e-8, 0.01, 0.5])),
@@ -706,7 +723,7 @@ def tabu_cases(draw, tier="quick"):
             "as_list": draw(st.booleans()),
         },
         "cb_seed": draw(SEED),
-        "minimize": _chance(draw, 50),
+        "minimize": not _chance(draw, 50),
         "cooldown": draw(st.integers(1, 6)),
         "max_iter": max_iter,
         "max_no_improve": _iters(draw, 40),
@@ -745,10 +762,21 @@ def run_tabu(desc, ctx):
 
 
 # ============================================================================= lns / alns
-ACCEPT = st.one_of(
-    st.sampled_from(["improving", "accept_all", "simulated_annealing", "simulated_annealing"]),
-    st.sampled_from([0, 0.5, 1, 2.5]).map(lambda t: {"thr": t}),
-)
+# lns(accept=<callable>) keeps a candidate as best only after the callable accepted it, so a callable that rejects an
+# improving candidate makes lns return something worse than a point it evaluated.  The callable form of `accept` is
+# not documented (module docstring: 'improving', 'accept_all', or 'simulated_annealing'), hence outside the generated
+# domain for lns; set to True to see it (notes/build/C19.md, "Observed, not asserted").
+LNS_COIN_ACCEPT = False
+
+
+def accept_st(coin):
+    opts = [
+        st.sampled_from(["improving", "accept_all", "simulated_annealing", "simulated_annealing"]),
+        st.sampled_from([0, 0.5, 1, 2.5]).map(lambda t: {"thr": t}),
+    ]
+    if coin:
+        opts.append(st.sampled_from([0, 2, 4, 6]).map(lambda p: {"coin": p}))
+    return st.one_of(*opts)
 
 
 @st.composite
@@ -772,8 +800,8 @@ def lns_cases(draw, tier="quick"):
         "destroy": draw(destroy_op()),
         "repair": draw(repair_op()),
         "cb_seed": draw(SEED),
-        "minimize": _chance(draw, 50),
-        "accept": draw(ACCEPT),
+        "minimize": not _chance(draw, 50),
+        "accept": draw(accept_st(LNS_COIN_ACCEPT)),
         "start_temp": draw(st.sampled_from([0.5, 5.0, 100.0])),
         "cooling_rate": draw(st.sampled_from([0.5, 0.9, 0.9995])),
         "max_iter": max_iter,
@@ -784,7 +812,7 @@ def lns_cases(draw, tier="quick"):
 
 
 def _accept_label(acc):
-    return "accept-" + (acc if isinstance(acc, str) else "custom-threshold")
+    return "accept-" + (acc if isinstance(acc, str) else "custom-coin" if "coin" in acc else "custom-threshold")
 
 
 def run_lns(desc, ctx):
@@ -836,8 +864,8 @@ def alns_cases(draw, tier="quick"):
         "destroy_weights": draw(st.lists(dy(0.125, 4), min_size=len(dops), max_size=len(dops))) if weights else None,
         "repair_weights": draw(st.lists(dy(0.125, 4), min_size=len(rops), max_size=len(rops))) if weights else None,
         "cb_seed": draw(SEED),
-        "minimize": _chance(draw, 50),
-        "accept": draw(ACCEPT),
+        "minimize": not _chance(draw, 50),
+        "accept": draw(accept_st(True)),
         "start_temp": draw(st.sampled_from([0.5, 5.0, 100.0])),
         "cooling_rate": draw(st.sampled_from([0.5, 0.9, 0.9995])),
         "segment_size": draw(st.integers(1, 10)),
@@ -903,7 +931,7 @@ def evolve_cases(draw, tier="quick"):
         "crossover": {"mode": draw(st.sampled_from([0, 0, 1, 1, 2, 3]))},
         "mutate": {"deltas": draw(DELTAS), "wrap": draw(st.booleans())},
         "cb_seed": draw(SEED),
-        "minimize": _chance(draw, 50),
+        "minimize": not _chance(draw, 50),
         "elite_size": draw(st.sampled_from([0, 0, 1, 2, 2, npop, npop + 1])),
         "mutation_rate": draw(st.sampled_from([0.0, 0.1, 0.5, 1.0])),
         "adaptive_mutation": draw(st.booleans()),
@@ -966,7 +994,7 @@ def de_cases(draw, tier="quick"):
     return {
         "obj": draw(vec_obj(d)),
         "bounds": bounds,
-        "minimize": _chance(draw, 50),
+        "minimize": not _chance(draw, 50),
         "population_size": psize,
         "mutation": draw(dy(0, 2)),
         "crossover": draw(st.sampled_from([0.0, 0.3, 0.7, 1.0])),
@@ -1024,7 +1052,7 @@ def pso_cases(draw, tier="quick"):
     return {
         "obj": draw(vec_obj(d)),
         "bounds": bounds,
-        "minimize": _chance(draw, 50),
+        "minimize": not _chance(draw, 50),
         "n_particles": npart,
         "max_iter": max_iter,
         "inertia": draw(dy(0, 1)),
@@ -1079,7 +1107,7 @@ def nm_cases(draw, tier="quick"):
     return {
         "obj": draw(vec_obj(d)),
         "x0": draw(st.lists(dy(-4, 4), min_size=d, max_size=d)),
-        "minimize": _chance(draw, 50),
+        "minimize": not _chance(draw, 50),
         "max_iter": max_iter,
         "tol": draw(st.sampled_from([1e-6, 1e-6, 1e-2, 0.0])),
         "adaptive": draw(st.booleans()),
@@ -1123,7 +1151,7 @@ def bayes_cases(draw, tier="quick"):
     return {
         "obj": draw(vec_obj(d)),
         "bounds": draw(bounds_st(d)),
-        "minimize": _chance(draw, 50),
+        "minimize": not _chance(draw, 50),
         "max_iter": max_iter,
         "n_initial": n_initial,
         "acquisition": draw(st.sampled_from(["ei", "ucb"])),
@@ -1176,7 +1204,7 @@ def powell_cases(draw, tier="quick"):
         "obj": draw(vec_obj(d)),
         "x0": x0,
         "bounds": bounds,
-        "minimize": _chance(draw, 50),
+        "minimize": not _chance(draw, 50),
         "max_iter": max_iter,
         "tol": draw(st.sampled_from([1e-6, 1e-6, 1e-2, 0.0])),
         "progress": draw(progress_st(max_iter)),
@@ -1218,7 +1246,7 @@ def bfgs_cases(draw, tier="quick"):
         "solver": draw(st.sampled_from(["bfgs", "lbfgs"])),
         "obj": obj,
         "x0": draw(st.lists(dy(-4, 4), min_size=d, max_size=d)),
-        "minimize": _chance(draw, 50),
+        "minimize": not _chance(draw, 50),
         "m": draw(st.integers(1, 5)),
         "max_iter": max_iter,
         "tol": draw(st.sampled_from([1e-6, 1e-6, 1e-2, 1.0])),
@@ -1252,15 +1280,15 @@ def _sub(name, run, strat, quick, thorough, wq=1, wt=4):
 
 
 SUBS = [
-    _sub("anneal", run_anneal, lambda tier: anneal_cases(tier), 700, 4000),
-    _sub("tabu_search", run_tabu, lambda tier: tabu_cases(tier), 500, 3000),
-    _sub("lns", run_lns, lambda tier: lns_cases(tier), 700, 4000),
-    _sub("alns", run_alns, lambda tier: alns_cases(tier), 600, 4000),
-    _sub("evolve", run_evolve, lambda tier: evolve_cases(tier), 600, 4000),
-    _sub("differential_evolution", run_de, lambda tier: de_cases(tier), 600, 3000),
-    _sub("particle_swarm", run_pso, lambda tier: pso_cases(tier), 600, 3000),
-    _sub("nelder_mead", run_nm, lambda tier: nm_cases(tier), 500, 4000, wq=2),
-    _sub("bayesian_opt", run_bayes, lambda tier: bayes_cases(tier), 150, 500, wq=2, wt=2),
-    _sub("powell", run_powell, lambda tier: powell_cases(tier), 300, 1500),
-    _sub("bfgs_lbfgs", run_bfgs, lambda tier: bfgs_cases(tier), 600, 3000),
+    _sub("anneal", run_anneal, lambda tier: anneal_cases(tier), 1500, 6000),
+    _sub("tabu_search", run_tabu, lambda tier: tabu_cases(tier), 1000, 4000),
+    _sub("lns", run_lns, lambda tier: lns_cases(tier), 1500, 6000),
+    _sub("alns", run_alns, lambda tier: alns_cases(tier), 1300, 6000),
+    _sub("evolve", run_evolve, lambda tier: evolve_cases(tier), 1200, 5000),
+    _sub("differential_evolution", run_de, lambda tier: de_cases(tier), 1200, 4000),
+    _sub("particle_swarm", run_pso, lambda tier: pso_cases(tier), 1200, 4000),
+    _sub("nelder_mead", run_nm, lambda tier: nm_cases(tier), 900, 5000, wq=2),
+    _sub("bayesian_opt", run_bayes, lambda tier: bayes_cases(tier), 220, 700, wq=2, wt=2),
+    _sub("powell", run_powell, lambda tier: powell_cases(tier), 500, 1500),
+    _sub("bfgs_lbfgs", run_bfgs, lambda tier: bfgs_cases(tier), 1000, 4000),
 ]
